@@ -644,6 +644,9 @@ def fqn_match_form(ctx, ff: FuncInfo) -> Tuple[Optional[bool], str, Optional[ast
              and n.elt.id == n.generators[0].target.id and len(n.generators[0].ifs) == 1]
     comps = [c for c in comps if _container_exprs(ctx, ff, c.generators[0].iter)]
     if len(comps) != 1:
+        keyed = _keyed_loop_form(ctx, ff, is_order, key_fn_ok)
+        if keyed is not None:
+            return keyed
         return None, '', None
     c = comps[0]
     d = c.generators[0].target.id
@@ -673,3 +676,199 @@ def fqn_match_form(ctx, ff: FuncInfo) -> Tuple[Optional[bool], str, Optional[ast
                           f'of the identifiers, equal exactly for equal names'), test
         return False, f'the match `{ast.unparse(test)[:60]}` does not compare whole names through an equality-preserving key', test
     return False, f'the match `{ast.unparse(test)[:60]}` is not recognised as whole-name equality', test
+
+
+
+def _keyed_loop_form(ctx, ff: FuncInfo, is_order, key_fn_ok):
+    """find_fqn as a keyed lookup:
+         T = {key(c): <anything> for ... c ... in [enumerate](<order>)}        (or a set of key(c))
+         for <declarations>: r = T.get(key(d.fqn)); if r is not None: result.append(<... d ...>)      (or `if key(d.fqn) in T`)
+       key(x) is `tuple(x.items)`, a one-line function returning that, or a property of NamespaceIds returning
+       `tuple(self.items)`: equal exactly for equal names.  Every declaration is looked up once, so it is appended at most
+       once.  None when find_fqn is not of this form."""
+    prog = ctx.prog
+    nids = prog.cls('scoping', 'NamespaceIds')
+
+    def key_of(e: ast.AST) -> Optional[Tuple[str, ast.AST]]:
+        """(key kind, the NamespaceIds expression) for `tuple(x.items)` / `keyfn(x)` / `x.<tuple property>`"""
+        if isinstance(e, ast.Call) and isinstance(e.func, ast.Name) and len(e.args) == 1 and not e.keywords:
+            if e.func.id == 'tuple' and isinstance(e.args[0], ast.Attribute) and e.args[0].attr == 'items':
+                return 'tuple-items', e.args[0].value
+            if key_fn_ok(e.func.id):
+                return 'fn:' + e.func.id, e.args[0]
+        if isinstance(e, ast.Attribute):
+            m = prog.lookup_method(nids, e.attr)
+            if m is not None and m.is_property:
+                body = [st for st in m.node.body if not (isinstance(st, ast.Expr) and isinstance(st.value, ast.Constant))]
+                if len(body) == 1 and isinstance(body[0], ast.Return) and body[0].value is not None and \
+                        ast.unparse(body[0].value) == 'tuple(self.items)':
+                    return 'tuple-items', e.value
+        return None
+
+    tables = {}
+    for a in iter_own_nodes(ff.node):
+        if isinstance(a, ast.Assign) and len(a.targets) == 1 and isinstance(a.targets[0], ast.Name) and \
+                isinstance(a.value, (ast.DictComp, ast.SetComp)) and len(a.value.generators) == 1 and not a.value.generators[0].ifs:
+            g = a.value.generators[0]
+            it = g.iter
+            if isinstance(it, ast.Call) and getattr(it.func, 'id', '') == 'enumerate' and len(it.args) == 1:
+                it = it.args[0]
+            k = key_of(a.value.key if isinstance(a.value, ast.DictComp) else a.value.elt)
+            bound = {x.id for x in ast.walk(g.target) if isinstance(x, ast.Name)}
+            if k is not None and is_order(it) and isinstance(k[1], ast.Name) and k[1].id in bound:
+                tables[a.targets[0].id] = (k[0], a)
+    if len(tables) != 1:
+        return None
+    tname, (kind, tnode) = next(iter(tables.items()))
+    if sum(1 for x in iter_own_nodes(ff.node) if isinstance(x, ast.Name) and x.id == tname and isinstance(x.ctx, ast.Store)) != 1:
+        return None
+    # the uses of the table: exactly one lookup, with the key of the declaration's fqn
+    uses = [x for x in iter_own_nodes(ff.node) if isinstance(x, ast.Name) and x.id == tname and isinstance(x.ctx, ast.Load)]
+    if len(uses) != 1:
+        return None
+    u = uses[0]
+    p = prog.parent(u)
+    looked = None
+    test_node = None
+    if isinstance(p, ast.Attribute) and p.attr == 'get' and isinstance(prog.parent(p), ast.Call) and len(prog.parent(p).args) == 1:
+        call = prog.parent(p)
+        looked = key_of(call.args[0])
+        st = ctx.flow.enclosing_stmt(call)
+        if not (isinstance(st, ast.Assign) and len(st.targets) == 1 and isinstance(st.targets[0], ast.Name) and st.value is call):
+            return False, 'the result of the keyed lookup is not tested for presence', call
+        rname = st.targets[0].id
+        blk_parent = prog.parent(st)
+        body = getattr(blk_parent, 'body', [])
+        i = next((k_ for k_, x in enumerate(body) if x is st), None)
+        nxt = body[i + 1] if i is not None and i + 1 < len(body) else None
+        if not (isinstance(nxt, ast.If) and ast.unparse(nxt.test) in (f'{rname} is not None', f'{rname} != None') and not nxt.orelse):
+            return False, 'the result of the keyed lookup is not tested with `is not None`', call
+        test_node, guarded = nxt, nxt.body
+    elif isinstance(p, ast.Compare) and len(p.ops) == 1 and isinstance(p.ops[0], ast.In) and p.comparators[0] is u:
+        looked = key_of(p.left)
+        st = ctx.flow.enclosing_stmt(p)
+        if not (isinstance(st, ast.If) and st.test is p and not st.orelse):
+            return False, 'the membership test on the candidate keys does not guard the selection', p
+        test_node, guarded = st, st.body
+    else:
+        return None
+    if looked is None or looked[0] != kind or not (isinstance(looked[1], ast.Attribute) and looked[1].attr == 'fqn' and
+                                                  isinstance(looked[1].value, ast.Name)):
+        return False, (f'the declaration is looked up by `{ast.unparse(u)}` with a key that is not the whole-name key the '
+                       f'candidates were stored under'), test_node
+    d = looked[1].value.id
+    # d ranges over the declaration containers, and the guarded block appends (something holding) d exactly once
+    loop = ctx.flow.enclosing(test_node, (ast.For,))
+    if loop is None or not (isinstance(loop.target, ast.Name) and loop.target.id == d):
+        return None
+    appends = [c for s_ in guarded for c in ast.walk(s_) if isinstance(c, ast.Call) and isinstance(c.func, ast.Attribute)
+               and c.func.attr == 'append' and any(isinstance(x, ast.Name) and x.id == d for a_ in c.args for x in ast.walk(a_))]
+    inner_loops = [x for s_ in guarded for x in ast.walk(s_) if isinstance(x, (ast.For, ast.While))]
+    if len(appends) != 1 or inner_loops:
+        return False, 'a matching declaration is not appended exactly once', test_node
+    return True, ('every declaration is looked up once in the table of the candidates of the resolution order, keyed by the '
+                  'tuple of the identifiers (equal exactly for equal names), and appended when present'), test_node
+
+
+def first_match(ctx, fn: FuncInfo, e: ast.AST, depth: int = 0):
+    """`e` (an expression of `fn`) denotes the FIRST element of a sequence that satisfies a condition, however it is spelled:
+         [v for v in SEQ if COND][0]   (through single-definition locals)      next(v for v in SEQ if COND)
+         helper(args)   where helper is `for v in SEQ: if COND: return v` followed by a raise / return None
+    -> (seq expression, variable name, condition, rejecting raises) with the helper's parameters replaced by the arguments
+    of the call; None when `e` is nothing of the kind."""
+    import copy
+    prog = ctx.prog
+    if depth > 4:
+        return None
+    defs = {}
+    for n in iter_own_nodes(fn.node):
+        if isinstance(n, ast.Assign) and len(n.targets) == 1 and isinstance(n.targets[0], ast.Name):
+            defs.setdefault(n.targets[0].id, []).append(n.value)
+    for _ in range(6):
+        if isinstance(e, ast.Name) and len(defs.get(e.id, [])) == 1:
+            e = defs[e.id][0]
+        else:
+            break
+    if isinstance(e, ast.Subscript) and isinstance(e.slice, ast.Constant) and e.slice.value == 0:
+        lst = e.value
+        for _ in range(6):
+            if isinstance(lst, ast.Name) and len(defs.get(lst.id, [])) == 1:
+                lst = defs[lst.id][0]
+            else:
+                break
+        if isinstance(lst, ast.ListComp) and len(lst.generators) == 1 and len(lst.generators[0].ifs) == 1 and \
+                isinstance(lst.generators[0].target, ast.Name) and isinstance(lst.elt, ast.Name) and \
+                lst.elt.id == lst.generators[0].target.id:
+            g = lst.generators[0]
+            return g.iter, g.target.id, g.ifs[0], []
+        return None
+    if isinstance(e, ast.Call) and isinstance(e.func, ast.Name) and e.func.id == 'next' and e.args and \
+            isinstance(e.args[0], ast.GeneratorExp) and len(e.args[0].generators) == 1:
+        g = e.args[0].generators[0]
+        if len(g.ifs) == 1 and isinstance(g.target, ast.Name) and isinstance(e.args[0].elt, ast.Name) and \
+                e.args[0].elt.id == g.target.id:
+            return g.iter, g.target.id, g.ifs[0], []
+        return None
+    if isinstance(e, ast.Call) and isinstance(e.func, (ast.Name, ast.Attribute)):
+        sym = prog.resolve_expr_symbol(fn.module, e.func)
+        if not isinstance(sym, FuncInfo):
+            return None
+        body = [st for st in sym.node.body if not (isinstance(st, ast.Expr) and isinstance(st.value, ast.Constant))]
+        if len(body) == 2 and isinstance(body[0], ast.For) and not body[0].orelse and isinstance(body[0].target, ast.Name) and \
+                len(body[0].body) == 1 and isinstance(body[0].body[0], ast.If) and not body[0].body[0].orelse and \
+                len(body[0].body[0].body) == 1 and isinstance(body[0].body[0].body[0], ast.Return) and \
+                isinstance(body[0].body[0].body[0].value, ast.Name) and body[0].body[0].body[0].value.id == body[0].target.id and \
+                isinstance(body[1], (ast.Raise, ast.Return)):
+            bind = prog.bind_call(fn.module, e, sym)
+            if set(a.arg for a in sym.params()) - set(bind):
+                return None
+
+            class Sub(ast.NodeTransformer):
+                def visit_Name(self, node):
+                    if node.id in bind and isinstance(node.ctx, ast.Load):
+                        return copy.deepcopy(bind[node.id])
+                    return node
+            seq = Sub().visit(copy.deepcopy(body[0].iter))
+            cond = Sub().visit(copy.deepcopy(body[0].body[0].test))
+            return seq, body[0].target.id, cond, [(sym, body[1])] if isinstance(body[1], ast.Raise) else []
+        # a one-line wrapper around one of the forms
+        if len(body) == 1 and isinstance(body[0], ast.Return) and body[0].value is not None:
+            r = first_match(ctx, sym, body[0].value, depth + 1)
+            if r is not None:
+                bind = prog.bind_call(fn.module, e, sym)
+
+                class Sub2(ast.NodeTransformer):
+                    def visit_Name(self, node):
+                        if node.id in bind and isinstance(node.ctx, ast.Load):
+                            return copy.deepcopy(bind[node.id])
+                        return node
+                return Sub2().visit(copy.deepcopy(r[0])), r[1], Sub2().visit(copy.deepcopy(r[2])), r[3]
+    return None
+
+
+def rejecting_calls(ctx, fn: FuncInfo):
+    """Calls in `fn` of functions of the same module that reject their input themselves: (call, helper, raise statement) for
+    every helper (other than constructors) that contains a raise statement of its own - an extracted lookup-or-refuse step
+    counts as a rejection at each of its call sites."""
+    out = []
+    for c in iter_own_nodes(fn.node):
+        if isinstance(c, ast.Call) and isinstance(c.func, (ast.Name, ast.Attribute)):
+            sym = ctx.prog.resolve_expr_symbol(fn.module, c.func)
+            if isinstance(sym, FuncInfo) and sym.module is fn.module and sym is not fn:
+                for r in iter_own_nodes(sym.node):
+                    if isinstance(r, ast.Raise):
+                        out.append((c, sym, r))
+    return out
+
+
+
+def expanded_everywhere(ctx) -> set:
+    """fq of the helper functions every call of which was expanded in place by the normal forms (N7 / N11 / N13 / N16) and
+    that nothing in the package calls any more: their bodies are judged in each caller, with the actual arguments; the
+    definition left behind is not a path of the generator."""
+    cache = ctx.__dict__.setdefault('_expanded_everywhere', None)
+    if cache is None:
+        inl = {callee for _caller, callee in ctx.prog.inlined}
+        cache = {fq for fq in inl if fq in ctx.prog.functions and not ctx.cg.callers(ctx.prog.functions[fq])}
+        ctx.__dict__['_expanded_everywhere'] = cache
+    return cache
